@@ -1,4 +1,5 @@
 import LitexProofs.Event.Bus
+import LitexProofs.Event.Gpio
 /-
   C15 — Interrupt events are never lost and the IRQ line means pending-and-enabled.
 
@@ -152,6 +153,29 @@ theorem clear_iff_write_one (hk : k < c.n) (hw : c.n ≤ c.bw) {t : Nat} (ht : t
   rw [clear_succ ht, r_succ hk ht, commits_single hn hw, wrBit_single hk hw]
   cases hwe : (inAt ins t).we <;> by_cases ha : (inAt ins t).adr = 1 <;> simp [ha]
 
+/-- The property in software terms (sources fit one bus word): an event in cycle `u` is pending in every later
+    cycle `T` unless some cycle `v` with `u ≤ v`, `v + 1 < T` wrote a one to bit `k` of `pending`.  (A write in
+    cycle `u - 1`, whose clear coincides with the event, does not count: the event is retained.) -/
+theorem event_not_lost_until_acked (hk : k < c.n) (hkind : c.kind k ≠ .level) (hw : c.n ≤ c.bw) {u T : Nat}
+    (hu : u < T) (hT : T ≤ ins.length) (hev : eventAt c ins u k = true)
+    (hno : ∀ v, u ≤ v → v + 1 < T →
+      ¬ ((inAt ins v).we = true ∧ (inAt ins v).adr = 1 ∧ (inAt ins v).datW.testBit k = true)) :
+    pendingAt c ins T k = true := by
+  refine event_not_lost hk hkind hu hT hev (fun v h1 h2 => ?_)
+  obtain ⟨v', rfl⟩ : ∃ v', v = v' + 1 := ⟨v - 1, by omega⟩
+  rw [clear_iff_write_one hk hw (by omega)]
+  have := hno v' (by omega) h2
+  cases h3 : (inAt ins v').we <;> by_cases h4 : (inAt ins v').adr = 1 <;>
+    cases h5 : (inAt ins v').datW.testBit k <;> simp_all
+
+/-- Acknowledging works: a write of a one to bit `k` of `pending` in cycle `t`, with no new event in cycle `t+1`,
+    leaves the source not pending in cycle `t+2`. -/
+theorem ack_clears (hk : k < c.n) (hkind : c.kind k ≠ .level) (hw : c.n ≤ c.bw) {t : Nat} (ht : t + 1 < ins.length)
+    (hwr : (inAt ins t).we = true ∧ (inAt ins t).adr = 1 ∧ (inAt ins t).datW.testBit k = true)
+    (hnoev : eventAt c ins (t + 1) k = false) : pendingAt c ins (t + 2) k = false := by
+  rw [pendingAt_of_ne_level hkind, pending_next hk hkind ht, clear_iff_write_one hk hw (by omega), hnoev]
+  simp [hwr.1, hwr.2.1, hwr.2.2]
+
 /-- Clearing one event never clears another (one-word case, in terms of the written mask): if the mask written to
     `pending` has a zero in bit `j`, source `j` stays pending. -/
 theorem clear_other_bit_keeps {j : Nat} (hj : j < c.n) (hkind : c.kind j ≠ .level) (hw : c.n ≤ c.bw)
@@ -228,6 +252,39 @@ theorem read_shows {t : Nat} (ht : t < ins.length) {reg : Reg} {w j : Nat}
   rw [stAt_succ ht, next_datR, readWord, hdec]
   simp [packFrom_testBit, hj, hn]
 
+/-! ## client: GPIO interrupt (`gpio.py:_GPIOIRQ`), model `gpioIrq` -/
+
+/-- The event manager inside the GPIO client is `evMgr` run on the trigger trace the pads produce, so every theorem
+    above applies to it with `ins := gpioTrace n gins`. -/
+theorem gpio_is_evMgr (n bw : Nat) (little : Bool) (gins : List GpioIn) :
+    ((gpioIrq n bw little).run gins).ev = (evMgr (gpioCfg n bw little)).run (gpioTrace n gins) :=
+  gpio_run_ev n bw little gins _
+
+/- Full statement that the code does NOT satisfy (known finding C15-gpio-change-back-to-back):
+     theorem gpio_change_pending : modeAt gins t k = true → changeAt gins t k = true →
+         pendingAt (gpioCfg n bw little) (gpioTrace n gins) (t + 1) k = true
+   (in Change mode every change of the synchronised pad is pending in the next cycle, whatever software does).
+   The change pulse `in ^ in_d` goes into a rising-edge process source, so a change directly after another change
+   is no edge.  Proved under the hypothesis that the previous cycle had no change; negative witness below. -/
+theorem gpio_change_pending_partial {n bw : Nat} {little : Bool} {gins : List GpioIn} {t k : Nat}
+    (hk : k < n) (ht : t < gins.length)
+    (hmode : modeAt gins t k = true) (hchange : changeAt gins t k = true)
+    (hquiet : ∀ t', t = t' + 1 → modeAt gins t' k = true ∧ changeAt gins t' k = false) :
+    pendingAt (gpioCfg n bw little) (gpioTrace n gins) (t + 1) k = true := by
+  have hkn : k < (gpioCfg n bw little).n := by rw [gpio_cfg_n]; exact hk
+  have hkind : (gpioCfg n bw little).kind k = .rising := gpio_cfg_kind n bw little hk
+  have hlen : (gpioTrace n gins).length = gins.length := gpioDerive_length n gins _
+  apply event_pending_next_cycle hkn (by rw [hkind]; decide) (by omega)
+  unfold eventAt
+  rw [hkind, gpio_trig_change hk ht hmode, hchange]
+  cases t with
+  | zero => rfl
+  | succ t' =>
+    obtain ⟨hm, hc⟩ := hquiet t' rfl
+    simp only [prevTrig, Kind.event]
+    rw [gpio_trig_change hk (by omega) hm, hc]
+    rfl
+
 /-! ## non-vacuity and negative witnesses (concrete runs, checked by evaluation) -/
 
 def wr (adr dat : Nat) (trig : List Bool := []) : In := { trig := trig, adr := adr, we := true, datW := dat }
@@ -258,5 +315,29 @@ example :
     let ins := [idle [false, true], wr 2 1, wr 3 0, idle, idle [true, true], wr 3 1, idle, idle]
     pendingAt c ins 6 1 = true ∧ clearAt c ins 6 1 = true ∧ wrBit c (inAt ins 5) .pending 1 = none ∧
     pendingAt c ins 7 1 = false := by decide
+
+/-- Non-vacuity of `clear_after_addressed_write`: three sources on a 2-bit bus (`pending` = words [bits 0,1] and
+    [bit 2]); a whole-register write of 0b101 (word 1 first, then the committing word 0) clears exactly sources 0
+    and 2 and leaves source 1 pending. -/
+example :
+    let c : Cfg := { kinds := [.pulse, .rising, .pulse], bw := 2, little := false }
+    let ins := [idle [true, true, true], wr 2 0b1, wr 3 0b01, idle, idle]
+    (List.range 3).map (clearAt c ins 3) = [true, false, true] ∧
+    (List.range 3).map (pendingAt c ins 3) = [true, true, true] ∧
+    (List.range 3).map (pendingAt c ins 4) = [false, true, false] := by decide
+
+/-- Negative witness for `gpio_change_pending` outside the hypothesis of the `_partial` theorem (one pad, Change
+    mode, 8-bit bus): the pad rises in cycle 1 (pending from cycle 2); in cycle 4 software acknowledges; the pad
+    falls in cycle 4 and rises again in cycle 5, where the clear lands: the change of cycle 5 is not pending in
+    cycle 6, and nothing is pending afterwards. -/
+example :
+    let g (pad : Bool) (adr : Nat) (we : Bool) (dat : Nat) : GpioIn :=
+      { pads := [pad], mode := [true], edge := [false], adr := adr, we := we, datW := dat }
+    let gins := [g false 9 false 0, g true 9 false 0, g true 9 false 0, g true 9 false 0,
+                 g false 1 true 1, g true 9 false 0, g true 9 false 0, g true 9 false 0]
+    let c := gpioCfg 1 8 false
+    changeAt gins 5 0 = true ∧ clearAt c (gpioTrace 1 gins) 5 0 = true ∧
+    (List.range 8).map (fun t => pendingAt c (gpioTrace 1 gins) t 0) =
+      [false, false, true, true, true, true, false, false] := by decide
 
 end Litex.C15
